@@ -18,6 +18,7 @@ numbers - several times in its handshake datagram (hand-sealed at emission, or
 queued by the application's connect callback through the library), again in
 its own datagram or inside a bundle on the established connection.
 """
+import os
 import struct
 import threading
 
@@ -361,14 +362,45 @@ def menu(w, mon, ts, tick):
     return out
 
 
+_ALOG = []
+
+
+def _alog_dir():
+    if not _ALOG:
+        import atexit
+        import shutil
+        import tempfile
+        d = tempfile.mkdtemp(prefix="c10alog")
+        _ALOG.append(d)
+        atexit.register(shutil.rmtree, d, True)
+    return _ALOG[0]
+
+
+def _alog_cleanup():
+    # setupLogger adds a file handler to a process-wide logger on every call: close and remove them after each world
+    import logging
+    lg = logging.getLogger("mpgameserver.AccessLog")
+    for h in list(lg.handlers):
+        lg.removeHandler(h)
+        try:
+            h.close()
+        except Exception:
+            pass
+
+
 def scenario(params, ch):
     ticks, order = params
     swap = order.endswith("|swap")
+    alog = order.endswith("|alog")
     order = order.split("|")[0]
     mon = LifecycleMonitor()
     ts = TokenSource()
+    cfg = {"setConnectionTimeout": 0.5, "setTempConnectionTimeout": 0.25}
+    if alog:
+        # non-default logging configuration: access log enabled (the lifecycle does not depend on where events are logged)
+        cfg["enableAccessLogs"] = os.path.join(_alog_dir(), "access.log")
     w = World(n_clients=2, autoconnect=False, order=order, chooser=ch, monitors=[mon], token_source=ts, swap_handler=swap,
-              server_cfg={"setConnectionTimeout": 0.5, "setTempConnectionTimeout": 0.25})
+              server_cfg=cfg)
     try:
         def deviate(tick):
             m = menu(w, mon, ts, tick)
@@ -463,17 +495,19 @@ def scenario(params, ch):
         for v in mon.violations:
             ch.flag(*v)
         w.close()
+        if alog:
+            _alog_cleanup()
 
 
 def run(tier, seed):
     rep = core.Report()
     if tier == "quick":
         ticks = (0, 1, 3, 6, 9, 13, 17, 20, 26, 31)
-        plist = [(ticks, "cs"), ((0, 9, 20), "cs|swap")]
+        plist = [(ticks, "cs"), ((0, 9, 20), "cs|swap"), ((0, 9, 20), "cs|alog")]
         bound = 2
     else:
         ticks = (0, 1, 2, 3, 4, 5, 6, 7, 9, 11, 13, 15, 17, 18, 20, 24, 26, 31, 33)
-        plist = [(ticks, "cs"), (ticks, "sc"), ((0, 3, 9, 13, 20, 31), "cs|swap")]
+        plist = [(ticks, "cs"), (ticks, "sc"), ((0, 3, 9, 13, 20, 31), "cs|swap"), ((0, 3, 9, 13, 20, 31), "cs|alog")]
         bound = 2
     st = explore.explore_all("checks.c10", "scenario", plist, bound, time_budget=(1200 if tier == "quick" else 4800))
     if tier == "thorough":
